@@ -1,7 +1,7 @@
 #!/usr/bin/env python3
 """Writes seeded/<id>-mN/meta.json from the sub-agent's README, my confirmation logs and a catch-matrix log.
 
-    tools/mkseedmeta.py [matrix log ...]      (default: /tmp/wt/matrix_final.log)
+    tools/mkseedmeta.py [matrix log ...]      (default: seeded/matrix_logs/*.log in name order; later logs override)
 
 The matrix log is what tools/seedrun.sh printed for every seeded change (applied to /repo, quick checks
 run, reverted). Confirmation logs (tools/verify_seed.sh) are looked up under /tmp/wt/out/<id>/verify*.txt;
@@ -10,7 +10,7 @@ import json, os, re, sys, glob
 
 ROOT = os.path.dirname(os.path.dirname(os.path.abspath(__file__)))
 OUT = "/tmp/wt/out"
-logs = sys.argv[1:] or ["/tmp/wt/matrix_final.log"]
+logs = sys.argv[1:] or sorted(glob.glob(os.path.join(ROOT, "seeded", "matrix_logs", "*.log")))
 matrix, observed = {}, {}
 for log in logs:
     if not os.path.exists(log):
